@@ -86,7 +86,7 @@ Proof.
   destruct (encode_at_sem _ _ _ _ _ _ _ _ _ _ _ _ _ G E) as [Ex [Ey [Ez [El Cases]]]].
   destruct (gather_lengths _ _ _ _ _ _ _ _ _ _ G) as [GL HF].
   split; [rewrite Ex, Ey, Ez; exact GL|].
-  destruct Cases as [[l [Et Eb]] | [Hne [_ S]]].
+  destruct Cases as [[l [Et Eb]] | [Hne S]].
   - left. exists l. subst b tbl. unfold solid_block. cbn [b_labels b_nsb b_idx b_vals b_gx b_gy b_gz].
     split; [reflexivity|]. split; [reflexivity|]. split; [reflexivity|]. split; [reflexivity|].
     apply all_eq_repeat_gen; [exact GL|]. intros vox Hv.
@@ -96,7 +96,7 @@ Proof.
   - right. rewrite El. split; [|exact S].
     destruct tbl as [|l1 [|l2 t]]; simpl; try lia.
     + exfalso. assert (0 < gx * gy * gz).
-      { unfold encode_at in E. destruct (size_checks wx wy wz ox oy oz gx gy gz) eqn:SC; [|discriminate].
+      { unfold encode_at, encode_gen in E. destruct (size_checks wx wy wz ox oy oz gx gy gz) eqn:SC; [|discriminate].
         unfold size_checks in SC. rewrite !andb_true_iff, !negb_true_iff, !orb_false_iff in SC.
         destruct SC as [[[_ [[A B] D]] _] _]. apply N.ltb_ge in A, B, D. nia. }
       destruct (sbs_nonempty gx gy gz sbs GL HF H) as [l Hl]. exact (C l Hl).
